@@ -205,6 +205,13 @@ Definition exit_means_clean (c : case) : bool :=
   | None => true      (* nothing was ever started: no BatchRelease, no marker, belongs to this Rollout *)
   end.
 
+(* C18, the converse: the teardown never goes quiet.  A deleting Rollout that keeps its finalizer after a reconcile has
+   failed (retried with back-off), asked for a requeue, or changed its own status (which wakes it through its own watch) *)
+Definition c18_never_stalls (c : case) : bool :=
+  let o := rc_obs c in
+  if rs_deleting (rc_spec c) && rs_finalizer (rc_spec c) && negb (ob_gone o) && ob_finalizer o && negb (ob_panic o)
+  then ob_err o || ob_requeue o || negb (rstatus_eqb (rc_status c) (ob_status o)) else true.
+
 Definition in_domain (c : case) : bool :=
   let sp := rc_spec c in
   negb (Nat.eqb (List.length (rs_steps sp)) 0) &&
@@ -230,7 +237,8 @@ Definition judge (c : case) : list verdict :=
      clause "C02_paused_no_progress" (c02_paused c);
      clause "C02_partition_raise_authorised" (c02_partition c);
      clause "C10_rollback_and_supersession_dispatch" (c10_dispatch c) ]) ++
-  [ clause "C18_rollout_finalizer_guard" (c18_finalizer c) ] ++
+  [ clause "C18_rollout_finalizer_guard" (c18_finalizer c);
+    clause "C18_rollout_teardown_never_stalls" (c18_never_stalls c) ] ++
   (if ob_panic o || ob_gone o then [] else
    [ clause "C18_exit_declared_only_when_clean" (exit_means_clean c);
      clause "C05_exit_declared_only_when_clean" (exit_means_clean c) ]).
